@@ -43,6 +43,10 @@ type linkState struct {
 	// dropAt: break the connection at this write number of the link (0 = never)
 	breakAt int64
 	stallAt int64
+	// cutAfter: deliver this many more bytes of the link, then the sender's
+	// side goes away in the middle of its write (0 = off): the receiver reads
+	// the prefix and then end-of-stream, the sender gets a reset
+	cutAfter int64
 }
 
 // New creates a network.
@@ -199,6 +203,7 @@ type Conn struct {
 	inBytes    int
 	closed     bool // this end closed
 	peerClosed bool // other end closed (EOF after data)
+	halfDead   bool // this end died in the middle of a write
 	broken     bool // reset
 	rdl, wdl   time.Time
 	rtimer     *time.Timer
@@ -321,7 +326,7 @@ func (c *Conn) Write(p []byte) (int, error) {
 		if c.closed {
 			return 0, errClosed
 		}
-		if c.broken {
+		if c.broken || c.halfDead {
 			return 0, errReset
 		}
 		if c.peer.closed {
@@ -348,6 +353,16 @@ func (c *Conn) Write(p []byte) (int, error) {
 	if ls.stallAt != 0 && ls.writeSeq == ls.stallAt {
 		ls.stall = true
 	}
+	halfWritten := false
+	if ls.cutAfter > 0 {
+		if int64(len(p)) >= ls.cutAfter {
+			p = p[:ls.cutAfter]
+			ls.cutAfter = 0
+			halfWritten = true
+		} else {
+			ls.cutAfter -= int64(len(p))
+		}
+	}
 	if n.dead[c.Local] || n.dead[c.Peer] {
 		c.breakLocked()
 		n.cond.Broadcast()
@@ -366,6 +381,13 @@ func (c *Conn) Write(p []byte) (int, error) {
 	}
 	c.peer.in = append(c.peer.in, ch)
 	c.peer.inBytes += len(p)
+	if halfWritten {
+		c.halfDead = true
+		c.peer.peerClosed = true
+		atomic.AddInt64(&n.Stats.Broken, 1)
+		n.cond.Broadcast()
+		return len(p), errReset
+	}
 	n.cond.Broadcast()
 	return len(p), nil
 }
@@ -516,6 +538,14 @@ func (n *Net) BreakAt(from, to string, k int64) {
 	n.link(from, to).breakAt = k
 }
 
+// CutAfter lets k more bytes through on the link and then ends the stream in
+// the middle of the write that crosses that count (0 = off).
+func (n *Net) CutAfter(from, to string, k int64) {
+	n.mu.Lock()
+	defer n.mu.Unlock()
+	n.link(from, to).cutAfter = k
+}
+
 // StallAt starts stalling the link at its k-th write.
 func (n *Net) StallAt(from, to string, k int64) {
 	n.mu.Lock()
@@ -570,7 +600,7 @@ func (n *Net) HealAll(drop bool) {
 	n.mu.Lock()
 	var ks [][2]string
 	for k, l := range n.links {
-		l.cut, l.stall, l.delay, l.breakAt, l.stallAt = false, false, 0, 0, 0
+		l.cut, l.stall, l.delay, l.breakAt, l.stallAt, l.cutAfter = false, false, 0, 0, 0, 0
 		ks = append(ks, k)
 	}
 	n.mu.Unlock()
